@@ -103,6 +103,7 @@ type c19Sys struct {
 	live     *podEventHandler
 	liveResv cache.ResourceEventHandler
 	ids      []*c19Ident
+	depth    int
 }
 
 func c19NewSys(cfg *c19Cfg, base *c19Base) *c19Sys {
@@ -167,6 +168,7 @@ func (s *c19Sys) Apply(op int, check bool) (bool, []mc.Violation) {
 	cfg := s.cfg
 	id := s.ids[op/c19OpsPerIdent]
 	ctx := context.TODO()
+	s.depth++
 	var viol []mc.Violation
 	switch op % c19OpsPerIdent {
 	case c19OpBind:
@@ -644,6 +646,10 @@ func (s *c19Sys) Invariants() (viol []mc.Violation) {
 			return // one witness per class and state
 		}
 		seen[key] = true
+		if !cfg.witness(key, s.depth) {
+			cfg.res.Count("further_states_violating|"+key, 1)
+			return
+		}
 		viol = append(viol, mc.Violation{Key: "C19|numa|" + key, What: what})
 	}
 	objs := s.survivors()
